@@ -9,15 +9,16 @@ const { SETS } = require('../lib/cfgset')
 const { Rng, hashStr, clip, chunk } = require('../lib/util')
 
 const DIRECTIVES = ["'use strict'", '"use strict"', "'other directive'", '"twelve chars!"', "'use strict'"]
+const lastReturn = (b, w) => { const i = b.lastIndexOf('return '); return b.slice(0, i) + w + b.slice(i + 7) }
 const FUNCS = [
   (d, b) => `function fn() { ${d} ${b} }\nw.out(fn.call(undefined));`,
   (d, b) => `const fn = function () { ${d} ${b} };\nw.out(fn.call(undefined));`,
   (d, b) => `const fn = () => { ${d} ${b} };\nw.out(fn());`,
   (d, b) => `const ob = { m() { ${d} ${b} } };\nw.out(ob.m.call(undefined));`,
   (d, b) => `const ob = { get g() { ${d} ${b} } };\nw.out(ob.g);`,
-  (d, b) => `class K { constructor() { ${d} ${b.replace(/return /g, 'this.r = ')} } }\nw.out(new K().r);`,
+  (d, b) => `class K { constructor() { ${d} ${lastReturn(b, 'this.r = ')} } }\nw.out(new K().r);`,
   (d, b) => `class K { static sm() { ${d} ${b} } }\nw.out(K.sm.call(undefined));`,
-  (d, b) => `function* g() { ${d} ${b.replace(/return /g, 'yield ')} }\nfor (const v of g.call(undefined)) w.out(v);`,
+  (d, b) => `function* g() { ${d} ${lastReturn(b, 'yield ')} }\nfor (const v of g.call(undefined)) w.out(v);`,
   (d, b) => `function outer() { function inner() { ${d} ${b} } return inner.call(undefined) }\nw.out(outer());`,
   (d, b) => `function outer() { ${d} function inner() { ${b} } return inner.call(undefined) }\nw.out(outer());`,
   (d, b) => `w.out((function () { ${d} ${b} }).call(undefined));`,
@@ -118,7 +119,7 @@ module.exports = {
       const { out, violations } = await check(js[i], responses[i], prefixes[i], { exec: true })
       bump('status:' + out.k)
       if (['abort', 'timeout', 'harness'].includes(out.k)) { rep.inconclusive.push({ reason: 'harness-' + out.k, detail: 'c07' }); continue }
-      if (out.k !== 'ok-modified') { if (out.k === 'err') bump('err:' + clip(responses[i].err, 60)); continue }
+      if (out.k !== 'ok-modified') { if (out.k === 'err' && (rep.sets.rewriter_errors || []).length < 3) rep.sets.rewriter_errors = (rep.sets.rewriter_errors || []).concat([clip(responses[i].err.replace(/\s+/g, ' '), 300)]); continue }
       if (out.skipped) { bump('skipped'); continue }
       rep.evaluations++
       bump('bodies_compared', out.bodies || 0)
